@@ -49,6 +49,8 @@ def gen_cases(tier, seed):
             pats.append(tuple(1 if i % 2 == 0 else 0 for i in range(n)))
         for pat in pats:
             yield {"check": "tenmat", "shape": list(s), "pat": list(pat), "vseed": seed}
+        if n >= 2:
+            yield {"check": "tenmat", "shape": list(s), "pat": list(pats[0]), "vseed": seed, "grown": True}
     for s in shapes:
         n = prod(s)
         for pat in space.patterns(n, 4 if len(s) >= 3 else 6):
@@ -256,7 +258,8 @@ def _run_tenmat(case, ctx):
 
     shape = tuple(case["shape"])
     N = len(shape)
-    hd = {"kind": "tensor", "shape": case["shape"], "pat": case["pat"], "vseed": case["vseed"]}
+    hd = {"kind": "tensor", "shape": case["shape"], "pat": case["pat"], "vseed": case["vseed"],
+          "grown": bool(case.get("grown"))}
     A = H.ref_array(hd)
     ctx.state()
     if "variant" in case:
@@ -282,6 +285,14 @@ def _run_tenmat(case, ctx):
                 if ok:
                     p.expect_array("tenmat.to_tensor", B, A, variant=v, kind="tensor")
                     p.expect("tenmat.to_tensor", O.pyshape(B.shape) == shape, "wrong_shape", str(B.shape), v)
+                    if cp and copy and B.data.size:
+                        # depth 2: edit the converted tensor in place; the matricized form must keep denoting A
+                        B.data[...] = B.data + 1.0
+                        p.expect_array("tenmat.to_tensor", M, rm.matricize(A, R, C), variant=v + ":tenmat_after_write_to_result")
+            if copy and T.data.size:
+                # depth 2: edit the source tensor in place; a copying conversion must not follow it
+                T.data[...] = T.data + 1.0
+                p.expect_array("tensor.to_tenmat", M, rm.matricize(A, R, C), variant=v + ":after_write_to_source")
             if copy:
                 ok, D = p.call("tenmat.double", lambda: M.double(), variant=v)
                 if ok:
@@ -365,6 +376,8 @@ def _run_sptenmat(case, ctx):
         ok, Mc = p.call("sptenmat.copy", lambda: M.copy(), variant=vname)
         if ok:
             _check_sptenmat(p, "sptenmat.copy", Mc, A, R, C, vname, k)
+        if vname == "both" and (A.size <= 6 or list(R) == sorted(R) and list(C) == sorted(C)):
+            _sptenmat_setitem_histories(p, hd, A, R, C, kw)
         if vname == "both":
             want = rm.matricize(A, R, C)
             for form, arg in (("dense", want.copy()), ("coo", sparse.coo_matrix(want))):
@@ -383,6 +396,60 @@ def _run_sptenmat(case, ctx):
                                 variant="dups")
                 if ok:
                     _check_sptenmat(p, "sptenmat.__init__", M3, A, R, C, "dups", k)
+
+
+def _sptenmat_setitem_histories(p, hd, A, R, C, kw):
+    """Depth-2 histories on the matricized form: M[r,c] = v (v != 0) for positions sorting before / between / after
+    the stored ones; M must denote the updated matrix and convert back to the updated tensor, whatever the order
+    in which the writes were issued."""
+    want0 = rm.matricize(A, R, C)
+    nr, nc = want0.shape
+    pos = [(r, c) for c in range(nc) for r in range(nr)]
+    if len(pos) > 6:
+        pos = pos[:3] + pos[-3:]
+    seqs = [[q] for q in pos] + [[pos[-1], pos[0]], [pos[0], pos[-1]]]
+    if len(pos) >= 3:
+        seqs.append([pos[len(pos) // 2], pos[0]])
+    for seq in seqs:
+        S = H.build(hd)
+        try:
+            M = S.to_sptenmat(**kw)
+        except Exception:  # noqa: BLE001  (reported by the conversion check itself)
+            return
+        want = want0.copy()
+        okk = True
+        for n_, (r, c) in enumerate(seq):
+            v = 21.0 + 2 * n_
+            want[r, c] = v
+            p.ctx.tick()
+            try:
+                M[r, c] = v
+            except Exception as e:  # noqa: BLE001
+                p.ctx.fail("sptenmat.__setitem__", "exception:" + type(e).__name__, f"seq={seq}: {e}", variant="history", case=p.case)
+                okk = False
+                break
+        if not okk:
+            continue
+        probs = O.wf_sptenmat(M, allow_explicit_zero=True)
+        if probs:
+            p.ctx.fail("sptenmat.__setitem__", "malformed:" + ",".join(probs), f"seq={seq}", variant="history", case=p.case)
+            continue
+        if not p.expect_array("sptenmat.__setitem__", M, want, variant="history"):
+            continue
+        wantT = rm.unmatricize(want, A.shape, R, C)
+        ok, B = p.call("sptenmat.to_sptensor", lambda: M.to_sptensor(), variant="after_setitem")
+        if ok:
+            p.expect_array("sptenmat.to_sptensor", B, wantT, variant="after_setitem")
+            ok, F = p.call("sptenmat.full", lambda: M.full(), variant="after_setitem")
+            if ok:
+                p.expect_array("sptenmat.full", F, want, variant="after_setitem")
+            # the same array matricized afresh must compare equal (stored order must not record the history)
+            try:
+                fresh = B.to_sptenmat(**kw)
+                if not M.isequal(fresh):
+                    p.ctx.fail("sptenmat.isequal", "history_dependent", f"seq={seq}", variant="after_setitem", case=p.case)
+            except Exception as e:  # noqa: BLE001
+                p.ctx.fail("sptenmat.isequal", "exception:" + type(e).__name__, str(e)[:200], variant="after_setitem", case=p.case)
 
 
 def _run_kruskal(case, ctx):
